@@ -10,7 +10,7 @@ use response_time_analysis::ros2;
 use response_time_analysis::wcet::{JobCostModel, Scalar};
 
 use crate::analysis::{guarded, outcome_of, Outcome};
-use crate::desc::{d, du, parse_supply, s, ArrDesc, SupDesc};
+use crate::desc::{d, du, parse_supply, s, su, ArrDesc, CostDesc, SupDesc};
 use crate::gen::{random_arrival, ArrSwarm};
 use crate::harness::{components_json, finish, Options};
 use crate::json::Json;
@@ -52,10 +52,15 @@ impl Analysis {
     }
 }
 
-type DynRbf = RBF<Box<dyn ArrivalBound>, Scalar>;
+type DynRbf = RBF<Box<dyn ArrivalBound>, Box<dyn JobCostModel>>;
 
 fn rbf(arr: &ArrDesc, cost: u64) -> DynRbf {
-    RBF::new(arr.build(), Scalar::new(s(cost)))
+    RBF::new(arr.build(), Box::new(Scalar::new(s(cost))) as Box<dyn JobCostModel>)
+}
+
+/// RBF of an independent callback with its own cost model.
+fn rbf_cb(cb: &CbDesc) -> DynRbf {
+    RBF::new(cb.arr.as_ref().unwrap().build(), cb.cost_desc().build())
 }
 
 pub struct Bounds {
@@ -78,7 +83,7 @@ pub fn ecrts_bounds(wl: &RosWorkload, which: Analysis, loose_blocking: bool) -> 
     if n == 1 && wl.cbs[0].kind == CbKind::Polled && which == Analysis::EcrtsPp {
         let o = outcome_of(guarded(|| {
             let sup = wl.supply.build();
-            let r = rbf(wl.cbs[0].arr.as_ref().unwrap(), wl.cbs[0].wcet);
+            let r = rbf_cb(&wl.cbs[0]);
             ros2::rta_event_source(&*sup, &r, limit)
         }));
         b.cb[0] = o.bound();
@@ -92,10 +97,10 @@ pub fn ecrts_bounds(wl: &RosWorkload, which: Analysis, loose_blocking: bool) -> 
         }
         let o = outcome_of(guarded(|| {
             let sup = wl.supply.build();
-            let own = rbf(wl.cbs[i].arr.as_ref().unwrap(), wl.cbs[i].wcet);
+            let own = rbf_cb(&wl.cbs[i]);
             let hp: Vec<DynRbf> = (0..n)
                 .filter(|j| *j != i && wl.cbs[*j].kind == CbKind::Timer && wl.cbs[*j].prio < wl.cbs[i].prio)
-                .map(|j| rbf(wl.cbs[j].arr.as_ref().unwrap(), wl.cbs[j].wcet))
+                .map(|j| rbf_cb(&wl.cbs[j]))
                 .collect();
             let blocking = (0..n)
                 .filter(|j| {
@@ -120,10 +125,10 @@ pub fn ecrts_bounds(wl: &RosWorkload, which: Analysis, loose_blocking: bool) -> 
                 }
                 let o = outcome_of(guarded(|| {
                     let sup = wl.supply.build();
-                    let own = rbf(wl.cbs[i].arr.as_ref().unwrap(), wl.cbs[i].wcet);
+                    let own = rbf_cb(&wl.cbs[i]);
                     let others: Vec<DynRbf> = (0..n)
                         .filter(|j| *j != i)
-                        .map(|j| rbf(wl.cbs[j].arr.as_ref().unwrap(), wl.cbs[j].wcet))
+                        .map(|j| rbf_cb(&wl.cbs[j]))
                         .collect();
                     ros2::rta_polling_point_callback(&*sup, &own, &Aggregate::new(others), limit)
                 }));
@@ -182,7 +187,7 @@ pub fn rtss_fixed_point(wl: &RosWorkload, which: Analysis) -> FixedPoint {
         let costs: Vec<Box<dyn JobCostModel>> = wl
             .cbs
             .iter()
-            .map(|c| Box::new(Scalar::new(s(c.wcet))) as Box<dyn JobCostModel>)
+            .map(|c| c.cost_desc().build())
             .collect();
         let kinds: Vec<ros2::rr::CallbackType> = wl
             .cbs
@@ -303,6 +308,38 @@ fn ros_arr_swarm(rng: &mut Rng) -> ArrSwarm {
     sw
 }
 
+/// Cyclic run maxima of a per-instance WCET pattern: `c[n-1]` = largest total of `n` consecutive
+/// pattern entries (cyclically).  Sub-additive and monotone by construction.
+pub fn cyclic_cost_prefix(pattern: &[u64], entries: usize) -> Vec<u64> {
+    let l = pattern.len();
+    (1..=entries)
+        .map(|n| {
+            (0..l)
+                .map(|st| (0..n).map(|k| pattern[(st + k) % l]).sum::<u64>())
+                .max()
+                .unwrap_or(0)
+        })
+        .collect()
+}
+
+/// (wcet, cost model handed to the analysis, per-instance pattern of the execution-time source)
+fn gen_cost(rng: &mut Rng, max_w: u64, allow_curves: bool) -> (u64, Option<CostDesc>, Vec<u64>) {
+    if !allow_curves || rng.chance(3, 5) {
+        return (rng.range(1, max_w), None, Vec::new());
+    }
+    let len = rng.range(2, 5) as usize;
+    let pattern: Vec<u64> = (0..len).map(|_| rng.range(1, max_w)).collect();
+    let entries = rng.range(len as u64, 2 * len as u64) as usize;
+    let prefix = cyclic_cost_prefix(&pattern, entries);
+    let wcet = prefix[0];
+    let cost = if rng.chance(1, 2) {
+        CostDesc::Curve(prefix)
+    } else {
+        CostDesc::Extrap(prefix)
+    };
+    (wcet, Some(cost), pattern)
+}
+
 /// Period for a callback of cost `w` so that it uses roughly `share` per mille of the processor.
 fn period_for(w: u64, share_pm: u64) -> u64 {
     (w * 1000 / share_pm.max(10)).clamp(2, 400)
@@ -340,9 +377,13 @@ pub fn gen_workload(rng: &mut Rng, which: Analysis) -> RosWorkload {
         *sh = (*sh * total_share / tot).max(5);
     }
     let max_w = *rng.pick(&[3u64, 6, 9]);
+    // non-scalar job-cost models (cost curves inferred from a cyclic execution-time pattern) for
+    // independent callbacks; chains keep scalar costs (the chain analysis takes one RBF per chain)
+    let curves = rng.chance(1, 2);
     for t in 0..n_timers {
-        let w = rng.range(1, max_w);
-        let period = period_for(w, shares[t as usize]);
+        let (w, cost, pattern) = gen_cost(rng, max_w, curves);
+        let mean = if pattern.is_empty() { w } else { (pattern.iter().sum::<u64>() / pattern.len() as u64).max(1) };
+        let period = period_for(mean, shares[t as usize]);
         // timers are periodic in ROS 2, but the analysis admits any curve
         let arr = if rng.chance(1, 2) {
             ArrDesc::Periodic(period)
@@ -356,6 +397,8 @@ pub fn gen_workload(rng: &mut Rng, which: Analysis) -> RosWorkload {
             arr: Some(arr),
             succ: None,
             known_prio: true,
+            cost,
+            pattern,
         });
     }
     let mut polled_prio = 0u32;
@@ -365,8 +408,14 @@ pub fn gen_workload(rng: &mut Rng, which: Analysis) -> RosWorkload {
         } else {
             1
         };
-        let ws: Vec<u64> = (0..len).map(|_| rng.range(1, max_w)).collect();
-        let total_w: u64 = ws.iter().sum();
+        let (w0, cost0, pattern0) = gen_cost(rng, max_w, curves && len == 1);
+        let mut ws: Vec<u64> = (0..len).map(|_| rng.range(1, max_w)).collect();
+        ws[0] = w0;
+        let total_w: u64 = if pattern0.is_empty() {
+            ws.iter().sum()
+        } else {
+            (pattern0.iter().sum::<u64>() / pattern0.len() as u64).max(1)
+        };
         let share = shares[(n_timers + hidx) as usize % shares.len()];
         let period = period_for(total_w, share);
         let arr = random_arrival(rng, period, &sw);
@@ -379,6 +428,8 @@ pub fn gen_workload(rng: &mut Rng, which: Analysis) -> RosWorkload {
                 arr: if k == 0 { Some(arr.clone()) } else { None },
                 succ: if k + 1 < len { Some(first + k + 1) } else { None },
                 known_prio: !matches!(which, Analysis::Rr | Analysis::Bw) || rng.chance(1, 2),
+                cost: if k == 0 { cost0.clone() } else { None },
+                pattern: if k == 0 { pattern0.clone() } else { Vec::new() },
             });
         }
     }
@@ -532,11 +583,18 @@ pub fn gen_ros_schedule(
             c.inc("fault.synchronous_burst");
         }
         let chain = wl.chain_of(h);
-        for t in rel {
+        let rot = rng.below(16) as usize;
+        for (k_inst, t) in rel.into_iter().enumerate() {
             let costs: Vec<u32> = chain
                 .iter()
                 .map(|cb| {
-                    let w = wl.cbs[*cb].wcet;
+                    let pat = &wl.cbs[*cb].pattern;
+                    let w = if pat.is_empty() {
+                        wl.cbs[*cb].wcet
+                    } else {
+                        c.inc("fault.cost_follows_frame_pattern");
+                        pat[(rot + k_inst) % pat.len()]
+                    };
                     if exec_full || rng.chance(1, 2) {
                         w as u32
                     } else {
@@ -604,6 +662,35 @@ pub fn ros_scenario_legal(sc: &RosScenario, bits: Option<&[bool]>) -> Result<(),
             }
         }
         per_head[a.head].push(a.t);
+    }
+    // every run of consecutive instances of a callback respects its job-cost model (the library's)
+    for h in 0..n {
+        let cb = &sc.wl.cbs[h];
+        if cb.cost.is_none() || cb.arr.is_none() {
+            continue;
+        }
+        let seq: Vec<u64> = sc.arrivals.iter().filter(|a| a.head == h).map(|a| a.costs[0] as u64).collect();
+        let desc = cb.cost_desc();
+        let m = seq.len();
+        let claimed: Vec<u64> = guarded(move || {
+            let model = desc.build();
+            (0..=m).map(|k| su(model.cost_of_jobs(k))).collect()
+        })
+        .ok_or_else(|| format!("cost model of callback {} panicked", h))?;
+        let mut cum = vec![0u64; m + 1];
+        for i in 0..m {
+            cum[i + 1] = cum[i] + seq[i];
+        }
+        for i in 0..m {
+            for j in (i + 1)..=m {
+                if cum[j] - cum[i] > claimed[j - i] {
+                    return Err(format!(
+                        "callback {}: instances {}..{} cost {} > cost_of_jobs({}) = {}",
+                        h, i, j - 1, cum[j] - cum[i], j - i, claimed[j - i]
+                    ));
+                }
+            }
+        }
     }
     for h in 0..n {
         if per_head[h].is_empty() {
